@@ -29,8 +29,8 @@ type C13Spec struct {
 func init() {
 	register(&CheckDef{
 		ID: "C13", Level: "exploration",
-		Technique: "deterministic simulation: seeded recipes (zero-valued, degenerate, overlapping requirements) with randomised retry knobs; refusal decision compared with the exact success probability; scripted adversarial tapes on which every candidate fails or only the last permitted candidate succeeds",
-		Rule:      "case = one Generate / SuccessProbability call with its expected outcome class; distinct by hash of (recipe, knobs, stream kind); non-trivial = the recipe has a requirement, is degenerate (length<=0, empty alphabet, missing list) or the stream is adversarial",
+		Technique:   "deterministic simulation: seeded recipes (zero-valued, degenerate, overlapping requirements) with randomised retry knobs; refusal decision compared with the exact success probability; scripted adversarial tapes on which every candidate fails or only the last permitted candidate succeeds",
+		Rule:        "case = one Generate / SuccessProbability call with its expected outcome class; distinct by hash of (recipe, knobs, stream kind); non-trivial = the recipe has a requirement, is degenerate (length<=0, empty alphabet, missing list) or the stream is adversarial",
 		Assumptions: []string{"recipes whose failure bound (1-p)^MaxTrials is within a factor 1+-1e-3 of MaxFailRate are don't-care (float32 rounding)", "a recipe in which exclusion empties a required set is don't-care for the refusal decision (the statements leave it open) but must still not panic", "an error after exactly MaxTrials failed candidates on a random stream is legitimate (probability <= MaxFailRate)"},
 		Episodes:    map[string]int{"quick": 16000, "thorough": 6000000},
 		TwiceEvery:  7,
